@@ -166,4 +166,161 @@ theorem hexagon_table_rotated :
     Real.cos_pi, Real.sin_pi_sub, Real.cos_pi_sub, Real.sin_add_pi, Real.cos_add_pi, Real.sin_two_pi_sub, Real.cos_two_pi_sub]
   norm_num
 
+
+/-- unrotated hexagon: row extent `inner`, column extent `R` about its centre -/
+theorem hex_extent_unrotated (half hh R ρ : K) (sinT cosT : Nat → K) (size : Int) (a : HexCell) (i j : Int) (hhpos : 0 < hh)
+    (hT : sinT 0 = 1 / 2 ∧ cosT 0 = hh ∧ sinT 1 = 1 ∧ cosT 1 = 0 ∧ sinT 2 = 1 / 2 ∧ cosT 2 = -hh ∧
+          sinT 3 = -(1 / 2) ∧ cosT 3 = -hh ∧ sinT 4 = -1 ∧ cosT 4 = 0 ∧ sinT 5 = -(1 / 2) ∧ cosT 5 = hh)
+    (hin : hexagonAt half (R * hh) sinT cosT size size (hexToRC (2 * hh) hh (3 / 2) a ρ false).1
+          (hexToRC (2 * hh) hh (3 / 2) a ρ false).2 false i j = 1) :
+    ((i : K) - ((size / 2 : Int) : K)) + ρ * hh * ((a.1 : K) + 2 * (a.2.1 : K)) ≤ R * hh ∧
+    -(((i : K) - ((size / 2 : Int) : K)) + ρ * hh * ((a.1 : K) + 2 * (a.2.1 : K))) ≤ R * hh ∧
+    ((j : K) - ((size / 2 : Int) : K)) - ρ * (3 / 2 * (a.1 : K)) ≤ R ∧
+    -(((j : K) - ((size / 2 : Int) : K)) - ρ * (3 / 2 * (a.1 : K))) ≤ R := by
+  rw [hexagonAt_eq_one_iff] at hin
+  obtain ⟨s0, c0, s1, c1, s2, c2, s3, c3, s4, c4, s5, c5⟩ := hT
+  have A0 := hin 0 (by omega); have A1 := hin 1 (by omega); have A2 := hin 2 (by omega)
+  have A3 := hin 3 (by omega); have A4 := hin 4 (by omega); have A5 := hin 5 (by omega)
+  simp only [s0, c0, s1, c1, s2, c2, s3, c3, s4, c4, s5, c5, meshCoord, hexToRC, Bool.false_eq_true, if_false] at A0 A1 A2 A3 A4 A5
+  refine ⟨by linarith [A1], by linarith [A4], ?_, ?_⟩
+  · have : (((j : K) - ((size / 2 : Int) : K)) - ρ * (3 / 2 * (a.1 : K))) * hh ≤ R * hh := by linarith [A0, A5]
+    exact le_of_mul_le_mul_right this hhpos
+  · have : (-(((j : K) - ((size / 2 : Int) : K)) - ρ * (3 / 2 * (a.1 : K)))) * hh ≤ R * hh := by linarith [A2, A3]
+    exact le_of_mul_le_mul_right this hhpos
+
+/-- from the extents to the border: a coordinate within `(2k+1)·inner + k·g` of the centre index `⌊size/2⌋` is an index in
+`[1, size − 2]` when `size ≥ 2·((2k+1)·inner + k·g + pad)` and `pad ≥ 2` -/
+theorem index_clear_of_border (size i : Int) (E pad : K) (hpad : 2 ≤ pad) (hsize : 2 * (E + pad) ≤ (size : K))
+    (h1 : (i : K) - ((size / 2 : Int) : K) ≤ E) (h2 : -((i : K) - ((size / 2 : Int) : K)) ≤ E) : 1 ≤ i ∧ i ≤ size - 2 := by
+  have a1 : 2 * (size / 2) ≤ size := by omega
+  have a2 : size ≤ 2 * (size / 2) + 1 := by omega
+  have b1 : (2 : K) * ((size / 2 : Int) : K) ≤ (size : K) := by exact_mod_cast a1
+  have b2 : (size : K) ≤ 2 * ((size / 2 : Int) : K) + 1 := by exact_mod_cast a2
+  have i1 : (1 : K) ≤ (i : K) := by linarith
+  have i2 : (i : K) ≤ ((size - 2 : Int) : K) := by push_cast; linarith
+  exact ⟨by exact_mod_cast i1, by exact_mod_cast i2⟩
+
+/-- unrotated: a pixel inside the segment at a cell of cube distance ≤ k lies strictly inside the array border -/
+theorem hex_border_unrotated (half hh R g pad : K) (sinT cosT : Nat → K) (size : Int) (k : Nat) (a : HexCell) (i j : Int)
+    (hh56 : 5 / 6 ≤ hh) (hh1 : hh ≤ 1) (hR : 0 ≤ R) (hg : 0 ≤ g) (hpad : 2 ≤ pad) (hk : 1 ≤ k)
+    (hsize : ((2 * k + 1 : ℕ) : K) * (R * hh) * 2 + ((2 * k : ℕ) : K) * g + pad * 2 ≤ (size : K))
+    (hT : sinT 0 = 1 / 2 ∧ cosT 0 = hh ∧ sinT 1 = 1 ∧ cosT 1 = 0 ∧ sinT 2 = 1 / 2 ∧ cosT 2 = -hh ∧
+          sinT 3 = -(1 / 2) ∧ cosT 3 = -hh ∧ sinT 4 = -1 ∧ cosT 4 = 0 ∧ sinT 5 = -(1 / 2) ∧ cosT 5 = hh)
+    (ha : a.1 + a.2.1 + a.2.2 = 0)
+    (hb : (-(k : Int) ≤ a.1 ∧ a.1 ≤ k) ∧ (-(k : Int) ≤ a.2.1 ∧ a.2.1 ≤ k) ∧ (-(k : Int) ≤ a.2.2 ∧ a.2.2 ≤ k))
+    (hin : hexagonAt half (R * hh) sinT cosT size size (hexToRC (2 * hh) hh (3 / 2) a (R + g / 2) false).1
+          (hexToRC (2 * hh) hh (3 / 2) a (R + g / 2) false).2 false i j = 1) :
+    (1 ≤ i ∧ i ≤ size - 2) ∧ (1 ≤ j ∧ j ≤ size - 2) := by
+  have hhpos : 0 < hh := by linarith
+  obtain ⟨e1, e2, e3, e4⟩ := hex_extent_unrotated half hh R (R + g / 2) sinT cosT size a i j hhpos hT hin
+  have hq : (-(k : K) ≤ (a.1 : K) ∧ (a.1 : K) ≤ k) := ⟨by exact_mod_cast hb.1.1, by exact_mod_cast hb.1.2⟩
+  have hr : (-(k : K) ≤ (a.2.1 : K) ∧ (a.2.1 : K) ≤ k) := ⟨by exact_mod_cast hb.2.1.1, by exact_mod_cast hb.2.1.2⟩
+  have hs : (-(k : K) ≤ (a.2.2 : K) ∧ (a.2.2 : K) ≤ k) := ⟨by exact_mod_cast hb.2.2.1, by exact_mod_cast hb.2.2.2⟩
+  have hsum : ((a.1 : K) + (a.2.1 : K) + (a.2.2 : K) = 0) := by exact_mod_cast ha
+  have hk1 : (1 : K) ≤ k := by exact_mod_cast hk
+  have hk0 : (0 : K) ≤ k := by linarith
+  have hρ : 0 ≤ R + g / 2 := by linarith
+  have hw : 0 ≤ (R + g / 2) * hh := mul_nonneg hρ hhpos.le
+  have kg : 0 ≤ (k : K) * g := mul_nonneg hk0 hg
+  have t1 : (R + g / 2) * hh * ((a.2.2 : K) - a.2.1) ≤ (R + g / 2) * hh * (2 * k) :=
+    mul_le_mul_of_nonneg_left (by linarith [hs.2, hr.1]) hw
+  have t1' : (R + g / 2) * hh * ((a.2.1 : K) - a.2.2) ≤ (R + g / 2) * hh * (2 * k) :=
+    mul_le_mul_of_nonneg_left (by linarith [hs.1, hr.2]) hw
+  have t2 : (k : K) * g * hh ≤ k * g := mul_le_of_le_one_right kg hh1
+  have t3 : R * (5 / 6) ≤ R * hh := mul_le_mul_of_nonneg_left hh56 hR
+  have t4 : (k : K) * R * (5 / 6) ≤ k * R * hh := mul_le_mul_of_nonneg_left hh56 (mul_nonneg hk0 hR)
+  have t6 : (R + g / 2) * (a.1 : K) ≤ (R + g / 2) * k := mul_le_mul_of_nonneg_left hq.2 hρ
+  have t6' : (R + g / 2) * (-(a.1 : K)) ≤ (R + g / 2) * k := mul_le_mul_of_nonneg_left (by linarith [hq.1]) hρ
+  have kR1 : R ≤ (k : K) * R := le_mul_of_one_le_left hR hk1
+  have za : ((a.1 : K) + (a.2.1 : K) + (a.2.2 : K)) * ((R + g / 2) * hh) = 0 := by rw [hsum, zero_mul]
+  push_cast at hsize
+  have hE : 2 * ((2 * (k : K) + 1) * (R * hh) + k * g + pad) ≤ (size : K) := by linarith
+  have r1 : (i : K) - ((size / 2 : Int) : K) ≤ (2 * (k : K) + 1) * (R * hh) + k * g := by linarith [e1, t1, t2, za]
+  have r2 : -((i : K) - ((size / 2 : Int) : K)) ≤ (2 * (k : K) + 1) * (R * hh) + k * g := by linarith [e2, t1', t2, za]
+  have c1 : (j : K) - ((size / 2 : Int) : K) ≤ (2 * (k : K) + 1) * (R * hh) + k * g := by linarith [e3, t3, t4, t6, kR1, kg]
+  have c2 : -((j : K) - ((size / 2 : Int) : K)) ≤ (2 * (k : K) + 1) * (R * hh) + k * g := by linarith [e4, t3, t4, t6', kR1, kg]
+  exact ⟨index_clear_of_border size i _ pad hpad hE r1 r2, index_clear_of_border size j _ pad hpad hE c1 c2⟩
+
+/-- rotated hexagon: column extent `inner`, row extent `R` about its centre -/
+theorem hex_extent_rotated (half hh R ρ : K) (sinT cosT : Nat → K) (size : Int) (a : HexCell) (i j : Int) (hhpos : 0 < hh)
+    (hT : sinT 0 = 0 ∧ cosT 0 = 1 ∧ sinT 1 = hh ∧ cosT 1 = 1 / 2 ∧ sinT 2 = hh ∧ cosT 2 = -(1 / 2) ∧
+          sinT 3 = 0 ∧ cosT 3 = -1 ∧ sinT 4 = -hh ∧ cosT 4 = -(1 / 2) ∧ sinT 5 = -hh ∧ cosT 5 = 1 / 2)
+    (hin : hexagonAt half (R * hh) sinT cosT size size (hexToRC (2 * hh) hh (3 / 2) a ρ true).1
+          (hexToRC (2 * hh) hh (3 / 2) a ρ true).2 false i j = 1) :
+    ((j : K) - ((size / 2 : Int) : K)) - ρ * hh * (2 * (a.1 : K) + (a.2.1 : K)) ≤ R * hh ∧
+    -(((j : K) - ((size / 2 : Int) : K)) - ρ * hh * (2 * (a.1 : K) + (a.2.1 : K))) ≤ R * hh ∧
+    ((i : K) - ((size / 2 : Int) : K)) + ρ * (3 / 2 * (a.2.1 : K)) ≤ R ∧
+    -(((i : K) - ((size / 2 : Int) : K)) + ρ * (3 / 2 * (a.2.1 : K))) ≤ R := by
+  rw [hexagonAt_eq_one_iff] at hin
+  obtain ⟨s0, c0, s1, c1, s2, c2, s3, c3, s4, c4, s5, c5⟩ := hT
+  have A0 := hin 0 (by omega); have A1 := hin 1 (by omega); have A2 := hin 2 (by omega)
+  have A3 := hin 3 (by omega); have A4 := hin 4 (by omega); have A5 := hin 5 (by omega)
+  simp only [s0, c0, s1, c1, s2, c2, s3, c3, s4, c4, s5, c5, meshCoord, hexToRC, if_true] at A0 A1 A2 A3 A4 A5
+  refine ⟨by linarith [A0], by linarith [A3], ?_, ?_⟩
+  · have : (((i : K) - ((size / 2 : Int) : K)) + ρ * (3 / 2 * (a.2.1 : K))) * hh ≤ R * hh := by linarith [A1, A2]
+    exact le_of_mul_le_mul_right this hhpos
+  · have : (-(((i : K) - ((size / 2 : Int) : K)) + ρ * (3 / 2 * (a.2.1 : K)))) * hh ≤ R * hh := by linarith [A4, A5]
+    exact le_of_mul_le_mul_right this hhpos
+
+theorem hex_border_rotated (half hh R g pad : K) (sinT cosT : Nat → K) (size : Int) (k : Nat) (a : HexCell) (i j : Int)
+    (hh56 : 5 / 6 ≤ hh) (hh1 : hh ≤ 1) (hR : 0 ≤ R) (hg : 0 ≤ g) (hpad : 2 ≤ pad) (hk : 1 ≤ k)
+    (hsize : ((2 * k + 1 : ℕ) : K) * (R * hh) * 2 + ((2 * k : ℕ) : K) * g + pad * 2 ≤ (size : K))
+    (hT : sinT 0 = 0 ∧ cosT 0 = 1 ∧ sinT 1 = hh ∧ cosT 1 = 1 / 2 ∧ sinT 2 = hh ∧ cosT 2 = -(1 / 2) ∧
+          sinT 3 = 0 ∧ cosT 3 = -1 ∧ sinT 4 = -hh ∧ cosT 4 = -(1 / 2) ∧ sinT 5 = -hh ∧ cosT 5 = 1 / 2)
+    (ha : a.1 + a.2.1 + a.2.2 = 0)
+    (hb : (-(k : Int) ≤ a.1 ∧ a.1 ≤ k) ∧ (-(k : Int) ≤ a.2.1 ∧ a.2.1 ≤ k) ∧ (-(k : Int) ≤ a.2.2 ∧ a.2.2 ≤ k))
+    (hin : hexagonAt half (R * hh) sinT cosT size size (hexToRC (2 * hh) hh (3 / 2) a (R + g / 2) true).1
+          (hexToRC (2 * hh) hh (3 / 2) a (R + g / 2) true).2 false i j = 1) :
+    (1 ≤ i ∧ i ≤ size - 2) ∧ (1 ≤ j ∧ j ≤ size - 2) := by
+  have hhpos : 0 < hh := by linarith
+  obtain ⟨e1, e2, e3, e4⟩ := hex_extent_rotated half hh R (R + g / 2) sinT cosT size a i j hhpos hT hin
+  have hq : (-(k : K) ≤ (a.1 : K) ∧ (a.1 : K) ≤ k) := ⟨by exact_mod_cast hb.1.1, by exact_mod_cast hb.1.2⟩
+  have hr : (-(k : K) ≤ (a.2.1 : K) ∧ (a.2.1 : K) ≤ k) := ⟨by exact_mod_cast hb.2.1.1, by exact_mod_cast hb.2.1.2⟩
+  have hs : (-(k : K) ≤ (a.2.2 : K) ∧ (a.2.2 : K) ≤ k) := ⟨by exact_mod_cast hb.2.2.1, by exact_mod_cast hb.2.2.2⟩
+  have hsum : ((a.1 : K) + (a.2.1 : K) + (a.2.2 : K) = 0) := by exact_mod_cast ha
+  have hk1 : (1 : K) ≤ k := by exact_mod_cast hk
+  have hk0 : (0 : K) ≤ k := by linarith
+  have hρ : 0 ≤ R + g / 2 := by linarith
+  have hw : 0 ≤ (R + g / 2) * hh := mul_nonneg hρ hhpos.le
+  have kg : 0 ≤ (k : K) * g := mul_nonneg hk0 hg
+  have t1 : (R + g / 2) * hh * ((a.1 : K) - a.2.2) ≤ (R + g / 2) * hh * (2 * k) :=
+    mul_le_mul_of_nonneg_left (by linarith [hq.2, hs.1]) hw
+  have t1' : (R + g / 2) * hh * ((a.2.2 : K) - a.1) ≤ (R + g / 2) * hh * (2 * k) :=
+    mul_le_mul_of_nonneg_left (by linarith [hq.1, hs.2]) hw
+  have t2 : (k : K) * g * hh ≤ k * g := mul_le_of_le_one_right kg hh1
+  have t3 : R * (5 / 6) ≤ R * hh := mul_le_mul_of_nonneg_left hh56 hR
+  have t4 : (k : K) * R * (5 / 6) ≤ k * R * hh := mul_le_mul_of_nonneg_left hh56 (mul_nonneg hk0 hR)
+  have t6 : (R + g / 2) * (a.2.1 : K) ≤ (R + g / 2) * k := mul_le_mul_of_nonneg_left hr.2 hρ
+  have t6' : (R + g / 2) * (-(a.2.1 : K)) ≤ (R + g / 2) * k := mul_le_mul_of_nonneg_left (by linarith [hr.1]) hρ
+  have kR1 : R ≤ (k : K) * R := le_mul_of_one_le_left hR hk1
+  have za : ((a.1 : K) + (a.2.1 : K) + (a.2.2 : K)) * ((R + g / 2) * hh) = 0 := by rw [hsum, zero_mul]
+  push_cast at hsize
+  have hE : 2 * ((2 * (k : K) + 1) * (R * hh) + k * g + pad) ≤ (size : K) := by linarith
+  have c1 : (j : K) - ((size / 2 : Int) : K) ≤ (2 * (k : K) + 1) * (R * hh) + k * g := by linarith [e1, t1, t2, za]
+  have c2 : -((j : K) - ((size / 2 : Int) : K)) ≤ (2 * (k : K) + 1) * (R * hh) + k * g := by linarith [e2, t1', t2, za]
+  have r1 : (i : K) - ((size / 2 : Int) : K) ≤ (2 * (k : K) + 1) * (R * hh) + k * g := by linarith [e3, t3, t4, t6', kR1, kg]
+  have r2 : -((i : K) - ((size / 2 : Int) : K)) ≤ (2 * (k : K) + 1) * (R * hh) + k * g := by linarith [e4, t3, t4, t6, kR1, kg]
+  exact ⟨index_clear_of_border size i _ pad hpad hE r1 r2, index_clear_of_border size j _ pad hpad hE c1 c2⟩
+
+
+theorem segCells_sum (k : Nat) (c : HexCell) (hc : c ∈ segCells k) : c.1 + c.2.1 + c.2.2 = 0 := by
+  induction k with
+  | zero => simp only [segCells, List.mem_singleton] at hc; subst hc; rfl
+  | succ k ih =>
+    simp only [segCells, List.mem_append] at hc
+    rcases hc with h | h
+    · exact ih h
+    · obtain ⟨t, _, h⟩ := hexRing_mem (k + 1) c h
+      rcases h with rfl | rfl | rfl | rfl | rfl | rfl <;> (simp only; omega)
+
+/-- `5/6 ≤ √3/2 ≤ 1` -/
+theorem sqrt3_half_bounds : (5 : ℝ) / 6 ≤ √3 / 2 ∧ √3 / 2 ≤ 1 ∧ 0 < √3 / 2 := by
+  have hs : √3 * √3 = 3 := Real.mul_self_sqrt (by norm_num)
+  have h0 : (0 : ℝ) ≤ √3 := Real.sqrt_nonneg 3
+  have h1 : (5 : ℝ) / 3 ≤ √3 := by
+    by_contra h; have h := not_le.1 h; nlinarith
+  have h2 : √3 ≤ 2 := by
+    by_contra h; have h := not_le.1 h; nlinarith
+  exact ⟨by linarith, by linarith, by linarith⟩
+
 end Lentil
